@@ -4,6 +4,9 @@ UNITS = [
     Unit('arena', **ARENA),
     Unit('nodes', harness=['h_nodes.cpp'], repo_units=[]),
     Unit('vec', harness=['h_vec.cpp'], repo_units=['asmjit/support/arenavector.cpp', 'asmjit/support/arenabitset.cpp']),
+    Unit('string', harness=['h_string.cpp'], repo_units=['asmjit/core/string.cpp']),
+    # bit sets: the word loops become mem* calls with symbolic lengths; the solver gets byte-loop models of those (stubs_mem.c)
+    Unit('bits', harness=['h_vec.cpp'], repo_units=['asmjit/support/arenavector.cpp', 'asmjit/support/arenabitset.cpp'], extra_c=['stubs_mem.c']),
 ]
 # loops of the arena functions (block chain walks): the chains of the single-block harnesses are at most 2 long
 def arena_loops(n):
@@ -63,17 +66,34 @@ HARNESSES = [
     Harness('vec', 'h_vec_huge_u32', unwind=4, bounds='reserve_fit/reserve_grow/reserve_additional with any 64-bit item count > 2, arena failing or granting', mem_gb=4, timeout=900),
     Harness('vec', 'h_vec_huge_tri', unwind=4, bounds='same for the 12-byte item', mem_gb=4, timeout=900),
     Harness('vec', 'h_vec_huge_kf_D18C', unwind=4, known='D18C', bounds='12-byte item, restricted to: the arena grants a block of 2^32 items or more', mem_gb=4, timeout=900),
-    Harness('vec', 'h_bitset_bits', unwind=194, bounds='any bit set of size 0..128 (two words, symbolic content); bit_at/set_bit/add_bit/clear_bit/xor_bit at any index, append within capacity, truncate, clear', mem_gb=4, timeout=900),
-    Harness('vec', 'h_bitset_ranges', unwind=194, bounds='any bit set of size 0..128; clear_all/fill_all/clear_bits/fill_bits over any range, iteration over set bits', mem_gb=4, timeout=900),
-    Harness('vec', 'h_bitset_combine', unwind=194, bounds='two bit sets of sizes 0..128; and_/or_/and_not/equals/copy_from', mem_gb=4, timeout=900),
-    Harness('vec', 'h_bitset_resize', unwind=194, unwindset=BITSET_LOOPS, bounds='any bit set of size 0..128 with capacity 64 or 128; resize to 0..192 with either value, or growing append', mem_gb=4, timeout=900),
-    Harness('vec', 'h_bitset_resize_kf_D18B', unwind=194, unwindset=BITSET_LOOPS, known='D18B', bounds='resize growing from a size that is not a multiple of 64', mem_gb=4, timeout=900),
-    Harness('vec', 'h_bitvec_ops', unwind=195, bounds='3 symbolic words; bit_vector_fill/clear over any range, index_of from any start, BitVectorIterator from any start', mem_gb=4, timeout=900),
-    Harness('vec', 'h_bitword_iter', unwind=130, bounds='all 64-bit / 32-bit words; BitVectorOpIterator<AndNot> over 2x2 symbolic words', mem_gb=4, timeout=900),
+    Harness('bits', 'h_bitset_bits', unwind=66, unwindset='memset.0:130', bounds='any bit set of size 0..128 (two words, symbolic content); bit_at/set_bit/add_bit/clear_bit/xor_bit at any index, append within capacity, truncate, clear', mem_gb=4, timeout=900),
+    Harness('bits', 'h_bitset_ranges', unwind=66, bounds='any bit set of size 0..128; clear_all/fill_all/clear_bits/fill_bits over any range, iteration over set bits', mem_gb=4, timeout=900),
+    Harness('bits', 'h_bitset_combine', unwind=66, unwindset='memset.0:130', bounds='two bit sets of sizes 0..128; and_/or_/and_not/equals/copy_from', mem_gb=4, timeout=900),
+    Harness('bits', 'h_bitset_resize', unwind=66, unwindset=BITSET_LOOPS + ',memset.0:130', bounds='any bit set of size 0..128 with capacity 64 or 128; resize to 0..192 with either value, or growing append', mem_gb=4, timeout=900),
+    Harness('bits', 'h_bitset_resize_kf_D18B', unwind=66, unwindset=BITSET_LOOPS + ',memset.0:130', known='D18B', bounds='resize growing from a size that is not a multiple of 64', mem_gb=4, timeout=900),
+    Harness('bits', 'h_bitvec_ops', unwind=194, bounds='3 symbolic words; bit_vector_fill/clear over any range, index_of from any start', mem_gb=4, timeout=900),
+    Harness('bits', 'h_bitvec_iter_init', unwind=66, bounds='3 symbolic words, any start 0..192: BitVectorIterator::init establishes remaining = set bits from start', mem_gb=4, timeout=900),
+    Harness('bits', 'h_bitvec_iter_step', unwind=66, bounds='3 symbolic words, any valid iterator state with something remaining: one next()', mem_gb=4, timeout=900),
+    Harness('bits', 'h_bitword_iter', unwind=66, bounds='all non-zero 64-bit / 32-bit words: one next(); BitVectorOpIterator<AndNot> over 2x2 symbolic words from any start: init + first next()', mem_gb=4, timeout=900),
+] + [
+] + [
+    Harness('string', 'h_string_%s_%s' % (kind, grp), unwind=36, mem_gb=4, timeout=900, bounds=what + '; symbolic characters; one of ' + ops)
+    for kind, what in (('small', 'embedded string (capacity 30), (length, n) in {(0,30),(5,25),(5,26),(30,1),(12,33)}'),
+                       ('tmp', 'StringTmp<8> (external buffer, capacity 15), (length, n) in {(0,15),(0,16),(8,7),(8,8),(15,3)}'),
+                       ('heap', 'heap string (capacity 15), (length, n) in {(0,15),(8,7),(8,8),(15,2)}'))
+    for grp, ops in (('a', 'assign / append / append(char) / append_chars'), ('b', 'pad_end / truncate / clear / assign(char)'), ('c', 'assign_chars / assign(String) / reset'))
+] + [
+    Harness('string', 'h_string_huge', unwind=8, bounds='prepare (append, assign) / append_chars / append_hex with every length the size arithmetic must refuse (>= SIZE_MAX - 16 MiB - 2; hex: >= SIZE_MAX/2 or /3)', mem_gb=3, timeout=600),
+    Harness('string', 'h_string_hex', unwind=48, bounds='append_hex of 0..5 symbolic bytes with and without separator onto 0..31 characters of a StringTmp<32>', mem_gb=4, timeout=900),
+    Harness('string', 'h_string_num_hex', unwind=132, bounds='append_uint/append_int, all 2^64 values, bases 16/2/8, flag and width combinations (none; alternate; alternate+sign width 18; space width 24)', mem_gb=6, timeout=1200),
+    Harness('string', 'h_string_num_dec32', unwind=132, bounds='append_uint/append_int base 10 (and base 0), all 32-bit values, widths 0/5/12, sign flags', mem_gb=6, timeout=1200),
+    Harness('string', 'h_string_num_dec64', unwind=132, tiers=('thorough',), bounds='append_uint/append_int base 10, all 2^64 values', mem_gb=8, timeout=3000),
+    Harness('string', 'h_string_num_badbase', unwind=8, bounds='any base other than 0/2/8/10/16, any value, width, flags', mem_gb=3, timeout=600),
 ]
 EXPLANATION = 'bounded symbolic execution (CBMC) of the real container code compiled from /repo; one operation from an arbitrary valid pre-state built in the harness, compared with an abstract model (plain arrays)'
 OUTSIDE = ['ArenaHash: insert into / rehash of tables with 2 and 11 buckets holding more than 2 nodes when the target has 29 buckets (no verdict from the SAT back end within 15 min); hash codes wider than 8 bits in the table harnesses (16 bits in h_hash_mod)',
            'ArenaTree: trees of more than 5 nodes (quick: more than 3)']
 ASSUMPTIONS = ['malloc never fails (allocation failure is C15)',
                'vector / bit set harnesses: Arena::_alloc_reusable and _release_dynamic are harness stubs (one typed 512-byte pool, allocated size reported as the real arena does)',
+               'bit set harnesses: memset/memcpy/memmove are byte loops for the solver (CBMC\'s built-in models lose writes of symbolic length into the middle of an object)',
                'hash harnesses: Arena::_alloc_reusable_zeroed is a harness stub returning a zeroed typed pool (the arena itself is checked by the h_arena_* harnesses)']
